@@ -504,7 +504,7 @@ func ruleR04c(c *Check, w *walkerInfo) {
 // R04d error channels under a join
 
 func ruleR04d(c *Check) {
-	c.Rule("R04d", "for every channel that goroutines joined by a WaitGroup send on: each send is non-blocking (select/default), or the channel is drained concurrently with the senders (the join happens in a separate goroutine), or its capacity is len(X) with exactly one goroutine per element of that same X and at most one send on any path of the goroutine", 4)
+	c.Rule("R04d", "for every channel that goroutines joined by a WaitGroup send on: each send is non-blocking (select/default), or the channel is drained concurrently with the senders (the join happens in a separate goroutine), or its capacity is len(X) with exactly one goroutine per element of that same X and at most one send on any path of the goroutine", 5)
 	type chanInfo struct {
 		mk    *ssa.MakeChan
 		sends []ssa.Instruction
@@ -533,9 +533,6 @@ func ruleR04d(c *Check) {
 				case *ssa.Send:
 					ch = x.Chan
 				case *ssa.Select:
-					if !x.Blocking {
-						continue // select with default: never blocks
-					}
 					for _, st := range x.States {
 						if st.Dir == types.SendOnly {
 							ch = st.Chan
@@ -570,6 +567,17 @@ func ruleR04d(c *Check) {
 		owner := mk.Parent()
 		key := "error-channel/" + c.P.FuncName(owner)
 
+		// (a) every send is a select with default
+		allNB := true
+		for _, sd := range ci.sends {
+			if sel, ok := sd.(*ssa.Select); !ok || sel.Blocking {
+				allNB = false
+			}
+		}
+		if allNB {
+			c.OK("R04d", key, fmt.Sprintf("all %d sends are non-blocking (select with default)", len(ci.sends)), c.P.InstrPos(mk))
+			continue
+		}
 		// (c) drained concurrently: a receive on the channel in the owner reachable without passing WaitGroup.Wait
 		if drainedConcurrently(c, owner, mk) {
 			c.OK("R04d", key, "the channel is drained while the senders run (the join + close happen in a separate goroutine)", c.P.InstrPos(mk))
